@@ -19,13 +19,16 @@ def pinst? : Sexp → Option Inst
   | .list [c, l, rh, rv] => do pure ⟨← nat? c, ← ploc? l, ← bool? rh, ← bool? rv⟩
   | _ => none
 
-def opPlace (args : List Sexp) : String :=
+/-- `place`: in placement order.  `place.retry` (`sorted`): the same program placed after a failed first attempt and a
+    repair — some instances are then already absolute, so the ORDER of the second run is another one; locations by index. -/
+def opPlaceG (sorted : Bool) (args : List Sexp) : String :=
   match args with
   | [.list (.atom "cells" :: cs), .list (.atom "insts" :: is)] =>
     match cs.mapM (fun c => match c with | .list [a, b] => do pure ((← int? a, ← int? b) : Int × Int) | _ => none), is.mapM pinst? with
     | some cells, some insts =>
       (match Place.run cells insts with
-       | .ok out =>
+       | .ok out0 =>
+         let out := if sorted then out0.mergeSort (fun a b => decide (a.1 ≤ b.1)) else out0
          let items := out.map (fun (e : Nat × Int × Int) =>
            match insts[e.1]? with
            | some i => Sexp.list [ofNat e.1, ofInt e.2.1, ofInt e.2.2, ofBool i.rh, ofBool i.rv]
@@ -34,6 +37,9 @@ def opPlace (args : List Sexp) : String :=
        | .err => "err")
     | _, _ => "bad-op"
   | _ => "bad-op"
+
+def opPlace (args : List Sexp) : String := opPlaceG false args
+def opPlaceRetry (args : List Sexp) : String := opPlaceG true args
 
 partial def arrdef? : Sexp → Option ArrDef
   | .list [.atom "leaf", c, n, sx, sy] => do pure (.leaf (← nat? c) (← nat? n) (← int? sx) (← int? sy))
